@@ -454,8 +454,53 @@ DEFECTS = [
     "ntrees0", "ntrees1", "ntrees7", "bitmap_empty", "incomplete_used", "incomplete_unused", "oversub_used",
     "oversub_unused", "no_eob", "overflow1", "idx_eq_n", "idx_big", "blkcrc", "strmcrc", "trunc", "runlen4",
     "bad_block_magic", "bad_eos_magic", "flipbit", "trailing_stream_trunc", "header_digit0", "short_file",
-    "overflow_stream2", "header_digit_empty",
+    "overflow_stream2", "header_digit_empty", "runwrap",
 ]
+
+
+def runwrap_file(rng):
+    """A block in which a zero run is written with 32 or 33 RUNA/RUNB symbols worth k * 2^32 + m (far beyond any block size);
+    block and stream CRC are those of the data a decoder produces if it lets the 32-bit run counter wrap (run = m): the BWT
+    column 01 00 .. 00 (m + 1 zeros) with primary index m + 1, i.e. the text 01 00^(m+1).  Optionally followed by a valid
+    stream of more than 128 bytes, so that the crafted block is decoded with plenty of input left (fast path of retrieve())."""
+    k, m = 1, rng.choice([1, 2])      # m + 1 <= 3 zeros (four equal bytes would need a count byte); 2^32 + m has 32 digits
+    plain = bytes([1] + [0] * (m + 1))
+    crc = crc32_bz(plain) ^ 0xFFFFFFFF
+    w = BW()
+    w.put(24, 0x425A68)
+    w.put(8, 0x30 + rng.range(1, 9))
+    w.put(48, MAGIC_BLOCK)
+    w.put(32, crc)
+    w.put(1, 0)
+    w.put(24, m + 1)
+    w.put(16, 0xFFFF)
+    for i in range(256):
+        w.put(1, 1 if i < 254 else 0)          # bytes 0..253 in use: 256 symbols, RUNA=0 RUNB=1 MTF p -> p+1, EOB=255
+    w.put(3, 2)
+    w.put(15, 1)
+    w.put(1, 0)
+    for _ in range(2):                          # both tables: every code 8 bits long (complete)
+        w.put(5, 8)
+        for _ in range(256):
+            w.put(1, 0)
+    w.put(8, 2)                                 # MTF position 1 -> byte 01
+    w.put(8, 2)                                 # MTF position 1 -> byte 00 (one zero)
+    n = k * (1 << 32) + m
+    while n > 0:                                # bijective base-2 digits, least significant first
+        d = 2 - (n & 1)
+        w.put(8, d - 1)
+        n = (n - d) // 2
+    w.put(8, 255)
+    w.put(48, MAGIC_EOS)
+    w.put(32, crc)
+    data = w.bytes()
+    if rng.chance(7, 8):
+        blocks = [valid_block(rng, 300) for _ in range(2)]
+        tail = to_bytes(stream(blocks, rng.range(1, 9), rng))
+        while len(tail) < 200:
+            tail += to_bytes(stream([valid_block(rng, 300)], rng.range(1, 9), rng))
+        data += tail
+    return data
 
 
 def one_defect(rng, kind=None, maxlen=300):
@@ -609,6 +654,8 @@ def one_defect(rng, kind=None, maxlen=300):
         if rng.chance(1, 2):
             data += to_bytes(stream(blocks, level, rng))
         return bytes(data), kind, "reject"
+    elif kind == "runwrap":
+        return runwrap_file(rng), kind, "reject"
     elif kind == "short_file":
         return rng.choice([b"", b"B", b"BZ", b"BZh", b"BZh9", b"BZh9\x17", b"BZh9\x17\x72\x45\x38\x50\x90\x00\x00\x00"]), kind, "reject"
     bits = stream(blocks, level, rng)
